@@ -22,7 +22,7 @@ static std::string op_brief(const OpResult& o)
 static Plan gen_c14(uint64_t seed, int64_t index, bool thorough)
 {
     Rng rng(hash_seed(seed, "C14", index));
-    std::vector<std::string> pk = keys_for({ "G1", "G2", "G3", "G4", "G6", "G7", "G10", "G11", "T1" }, false);
+    std::vector<std::string> pk = keys_for({ "G1", "G2", "G3", "G4", "G6", "G7", "G10", "G11", "G13", "T1" }, false);
     std::string key = rng.pick(pk);
     const ref::Model* m = model_for(grammar_of(key));
     OpShape sh;
@@ -56,7 +56,8 @@ static Plan gen_c14(uint64_t seed, int64_t index, bool thorough)
         std::vector<std::string> dk = keys_for({ "G1", "G2", "G3", "G4", "G6", "G7", "G11" }, false);
         key = rng.pick(dk);
         op = make_sentence_op(rng, key, sh);
-        int target = thorough ? int(rng.pick(std::vector<int>{ 1024, 1024, 2048, 4096 })) : int(rng.pick(std::vector<int>{ 1024, 1024, 1024, 2048 }));
+        int target = thorough ? int(rng.pick(std::vector<int>{ 1024, 1024, 2048, 4096, 65536 })) : int(rng.pick(std::vector<int>{ 1024, 1024, 1024, 2048 }));
+        if (rng.chance(1, thorough ? 12 : 40)) target = 65536;      // indices beyond 16 bits
         if (!make_deep_op(op, rng, key, target)) mode = "fault_free";
     }
     else
@@ -156,7 +157,7 @@ static std::vector<Violation> case_c14(const Plan& p, CaseCtx& cx)
 static Plan gen_c16(uint64_t seed, int64_t index, bool thorough)
 {
     Rng rng(hash_seed(seed, "C16", index));
-    std::vector<std::string> pk = keys_for({ "G1", "G2", "G3", "G4", "G5", "G6", "G7", "G8", "G9", "G10", "G11", "G12", "T1" });
+    std::vector<std::string> pk = keys_for({ "G1", "G2", "G3", "G4", "G5", "G6", "G7", "G8", "G9", "G10", "G11", "G12", "G13", "T1" });
     std::string key = rng.pick(pk);
     const ref::Model* m = model_for(grammar_of(key));
     OpShape sh;
